@@ -40,6 +40,7 @@ RULES = {
     "C05-E10": "-363 is raised only for input that does not fit: the overrun guard is exact (shared with C08-H8)",
     "C05-E11": "the parameter counter that decides whether a comma must be consumed is at least as wide as the element count of the array readers (it cannot wrap inside one unit)",
     "C05-E13": "(shared with C13-T10) every item of a list is delivered whole: the data parser consumes the white space behind each item, so the comma is found where the list walker looks for it",
+    "C05-E14": "SCPI_ParamIsValid answers from the token class alone (every class, with and without text behind the token): FALSE exactly for SCPI_TOKEN_UNKNOWN - an absent optional parameter, which SCPI_Parameter hands out as a class without text, is valid",
     "C05-E6": "SCPI_Parameter returns TRUE only for recognised program-data classes; all other paths invalidate the token and queue a -1xx error",
 }
 
@@ -642,6 +643,42 @@ def rule_e12(ck, prog):
         ck.anchor_lost("C05-E12", "no typed reader could be evaluated")
 
 
+def rule_e14(ck, prog):
+    from sa import interp as I
+    f = prog.fn("SCPI_ParamIsValid")
+    if f is None:
+        ck.anchor_lost("C05-E14", "SCPI_ParamIsValid")
+        return
+    ck.analysed(f)
+    st = K.site(f, "verdict-by-class", 0)
+    e = prog.enums.get("_scpi_token_type_t") or {"consts": {}}
+    unk = prog.enumconst.get("SCPI_TOKEN_UNKNOWN")
+    if unk is None or len(e["consts"]) < 10:
+        ck.anchor_lost("C05-E14", "enum _scpi_token_type_t")
+        return
+    text = I.mkstring("abc")
+    bad = None
+    n = 0
+    for name, t in sorted(e["consts"].items(), key=lambda kv: kv[1]):
+        for ptr, ln in ((0, 0), (text, 3), (text, 0)):
+            obj = {"type": t, "ptr": ptr, "len": ln}
+            try:
+                v = I.Machine(prog).run(f, [I.Ptr([obj], 0)])
+            except I.Stuck as ex:
+                ck.undecided("C05-E14", st, K.loc(f), "cannot evaluate SCPI_ParamIsValid: %s" % ex)
+                return
+            n += 1
+            if I.unk(v) or bool(v) != (t != unk):
+                bad = bad or (name, ptr != 0, ln, v)
+    if bad:
+        ck.violated("C05-E14", st, K.loc(f),
+                    "SCPI_ParamIsValid answers %s for a parameter of class %s (%s, length %d): a handler that asks for an optional "
+                    "parameter with SCPI_Parameter(..., FALSE) and then validates it takes the absent parameter for an error (-200, "
+                    "the input call fails)" % (bad[3], bad[0], "with text" if bad[1] else "no text", bad[2]))
+    else:
+        ck.holds("C05-E14", st, K.loc(f), "%d (class, text) combinations: FALSE exactly for SCPI_TOKEN_UNKNOWN" % n)
+
+
 def rule_e10_e11(ck, prog, S):
     from . import c08
     c08.rule_h8(K.RuleProxy(ck, {"C08-H8": "C05-E10"}), prog, S)
@@ -811,6 +848,7 @@ def run(ck, fb, tier):
         K.narrowing_rule(ck, prog, "C05-N", lambda f_: f_.relfile.endswith("parser.c") and f_.name.startswith(("SCPI_Param", "ParamSign", "SCPI_Parameter")))
         rule_e10_e11(ck, prog, S)
         rule_e12(ck, prog)
+        rule_e14(ck, prog)
         from . import c13
         c13.rule_t7(K.RuleProxy(ck, {"C13-T7": "C05-E5"}), prog)
         c13.rule_t10(K.RuleProxy(ck, {"C13-T10": "C05-E13"}), prog)
